@@ -187,6 +187,74 @@ fn run_hf(out: &mut Out, mut c: Case) {
 			break;
 		}
 	}
+	// ... and nothing of an earlier request through the same service enters it either (a service lives as long as its
+	// connection: keep-alive requests share it): a sequence of requests on ONE service gets, request by request, the
+	// answers fresh services give
+	let run_seq = |seq: &[Vec<Vec<u8>>]| -> Option<Vec<(Seen, usize)>> {
+		catch_unwind(AssertUnwindSafe(|| {
+			let layer = match &c.allow {
+				None => HostFilterLayer::disable(),
+				Some(l) => HostFilterLayer::new(l.iter().map(|s| Entry::Text(s.clone()))).ok()?,
+			};
+			let cnt = Arc::new(AtomicUsize::new(0));
+			let mut svc = layer.layer(Inner(cnt.clone()));
+			let mut res = vec![];
+			for hosts in seq {
+				let before = cnt.load(Ordering::SeqCst);
+				let mut b = http::Request::builder().method("POST");
+				if let Some(u) = &uri {
+					b = b.uri(u.clone());
+				}
+				for h in hosts {
+					b = b.header(http::header::HOST, http::HeaderValue::from_bytes(h).ok()?);
+				}
+				let req: http::Request<ReqBody> = b.body(ReqBody::new()).ok()?;
+				let rp = futures_util::FutureExt::now_or_never(svc.call(req))?;
+				let seen = match rp {
+					Ok(r) if r.status().as_u16() == 299 => Seen::Fwd,
+					Ok(r) => Seen::Status(r.status().as_u16()),
+					Err(_) => Seen::Status(0),
+				};
+				res.push((seen, cnt.load(Ordering::SeqCst) - before));
+			}
+			Some(res)
+		}))
+		.ok()
+		.flatten()
+	};
+	if variant_diff.is_none() && seen != Seen::CfgErr && seen != Seen::Panic {
+		// B: the same host with another port; C: another host with the same port
+		let other_port = |h: &Vec<u8>| -> Vec<u8> {
+			let t = String::from_utf8_lossy(h).to_string();
+			match t.rfind(':') {
+				Some(i) if !t[i..].contains(']') && t[i + 1..].chars().all(|ch| ch.is_ascii_digit()) => format!("{}:{}", &t[..i], if &t[i + 1..] == "1" { "2" } else { "1" }).into_bytes(),
+				_ => format!("{t}:1").into_bytes(),
+			}
+		};
+		let other_host = |h: &Vec<u8>| -> Vec<u8> { let mut v = b"x".to_vec(); v.extend_from_slice(h); v };
+		let a: Vec<Vec<u8>> = c.hosts.clone();
+		let b: Vec<Vec<u8>> = a.iter().map(other_port).collect();
+		let d: Vec<Vec<u8>> = a.iter().map(other_host).collect();
+		let ok_hdr = |hs: &Vec<Vec<u8>>| hs.iter().all(|h| http::HeaderValue::from_bytes(h).is_ok());
+		if !a.is_empty() && ok_hdr(&b) && ok_hdr(&d) {
+			let seq = vec![a.clone(), b.clone(), a.clone(), d.clone(), b.clone(), a.clone()];
+			let fresh: Vec<Option<(Seen, usize)>> = seq.iter().map(|r| run_seq(std::slice::from_ref(r)).and_then(|v| v.into_iter().next())).collect();
+			if let Some(got) = run_seq(&seq) {
+				for (i, g) in got.iter().enumerate() {
+					if fresh[i].as_ref() != Some(g) {
+						variant_diff = Some(format!(
+							"request {} of a keep-alive sequence (Host {:?}) got {:?}, a fresh service answers {:?}",
+							i + 1,
+							seq[i].iter().map(|h| String::from_utf8_lossy(h).to_string()).collect::<Vec<_>>(),
+							g,
+							fresh[i]
+						));
+						break;
+					}
+				}
+			}
+		}
+	}
 	let impl_out = match seen {
 		Seen::CfgErr => "cfgerr".to_string(),
 		Seen::Fwd => format!("fwd calls={n}"),
@@ -194,7 +262,7 @@ fn run_hf(out: &mut Out, mut c: Case) {
 		Seen::Panic => "panic".to_string(),
 	};
 	let verdict = match variant_diff {
-		Some(d) => Err(format!("decision depends on something other than the authority: {d}")),
+		Some(d) => Err(format!("decision depends on something other than the request's authority: {d}")),
 		None => oracle_hf(out, &c, seen, n),
 	};
 	out.count(match seen {
